@@ -21,6 +21,7 @@ pub fn params(tier: Tier) -> ScriptParams {
         settle_us: 50_000_000,
         replay_weight: 2, vary_server_limits: true,
         stray_weight: 3,
+        reconnect_weight: 2,
     }
 }
 
@@ -28,10 +29,10 @@ pub fn params(tier: Tier) -> ScriptParams {
 pub fn check_event_streams(log: &WorldLog) -> Result<(), Violation> {
     let w = &log.world;
     // clients
-    for (k, ci) in log.ci.iter().enumerate() {
-        let Some(i) = ci else { continue };
+    // (every Client object that ever existed: a client that connected again from the same address has a slot of its own)
+    for (k, slot) in w.clients.iter().enumerate() {
         let mut state = 0; // 0 init, 1 connected, 2 ended
-        for (_, t, e) in w.clients[*i].events.iter() {
+        for (_, t, e) in slot.events.iter() {
             let name = match e {
                 CEv::Connect => "Connect",
                 CEv::Disconnect => "Disconnect",
@@ -192,6 +193,14 @@ pub fn script_classes(c: &WCase, log: &WorldLog, classes: &mut Vec<&'static str>
     if w.server_events.iter().any(|(_, _, e)| matches!(e, SEv::Disconnect(_))) {
         classes.push("server_saw_disconnect");
     }
+    if log.reconnects > 0 {
+        classes.push("client_reconnected_from_same_address");
+        // the server reported a second connection for an address
+        let mut seen = std::collections::HashSet::new();
+        if w.server_events.iter().any(|(_, _, e)| matches!(e, SEv::Connect(a) if !seen.insert(*a))) {
+            classes.push("server_connected_same_address_twice");
+        }
+    }
     (disc + drops > 0) && faults > 0
 }
 
@@ -215,7 +224,7 @@ impl Check for C08 {
     }
 
     fn rule(&self) -> String {
-        "case = World script: a real Server and 1-3 (quick) real Clients (active timeouts 1.5 / 3 / 20 s, keepalive on or off) on links with per-datagram fates (delay, drop, duplicate up to 3 s apart, corrupt) and blackouts, driven by a generated interleaving of send (both directions, all modes), disconnect, disconnect_now, Server::drop, flush, and ticks that step the server and an arbitrary subset of clients with spacings from 0 to 25 s (clock jumps across the 2 s / 20 s / 22 s timers), followed by 50 s of regular stepping. Oracle: an automaton per connection over the iterators returned by step(): client [Connect] Receive* [Disconnect | Error] then silence, Receive / Disconnect only after Connect, Connect at most once; server per address the same, a new Connect only after the previous connection's terminal event or an application drop(addr), and nothing for a dropped connection; an Error for an address without a connection must be the end of a handshake attempt (a SYN-ACK or refusal was sent to it since). Non-trivial = at least one disconnect / drop call and at least one faulted datagram. Distinct = distinct serialised case.".into()
+        "case = World script: a real Server and 1-3 (quick) real Clients (active timeouts 1.5 / 3 / 20 s, keepalive on or off) on links with per-datagram fates (delay, drop, duplicate up to 3 s apart, corrupt) and blackouts, driven by a generated interleaving of send (both directions, all modes), disconnect, disconnect_now, Server::drop, flush, client applications that drop their Client and connect again from the same local address, and ticks that step the server and an arbitrary subset of clients with spacings from 0 to 25 s (clock jumps across the 2 s / 20 s / 22 s timers), followed by 50 s of regular stepping. Oracle: an automaton per connection over the iterators returned by step(): client [Connect] Receive* [Disconnect | Error] then silence, Receive / Disconnect only after Connect, Connect at most once; server per address the same, a new Connect only after the previous connection's terminal event or an application drop(addr), and nothing for a dropped connection; an Error for an address without a connection must be the end of a handshake attempt (a SYN-ACK or refusal was sent to it since). Non-trivial = at least one disconnect / drop call and at least one faulted datagram. Distinct = distinct serialised case.".into()
     }
 
     fn assumptions(&self) -> Vec<String> {
